@@ -268,8 +268,8 @@ class OpaqueModule:
 class Namespace:
     """A model namespace (stub module): attributes from a dict."""
 
-    def __init__(self, name, **attrs):
-        self._name = name
+    def __init__(self, _nsname, **attrs):
+        self._name = _nsname
         self._attrs = dict(attrs)
 
     def sym_getattr(self, interp, attr):
